@@ -86,6 +86,12 @@ func c02Mutate(ch func(int) int, f []byte, msize uint32) ([]byte, string) {
 	case 9: // R-type sent to a server
 		m := rc.New(uint8([]int{rc.TypeRlerror, rc.TypeRwalk, rc.TypeRread, rc.TypeRversion, rc.TypeRclunk, rc.TypeRgetattr}[ch(6)]))
 		return rc.Encode(binary.LittleEndian.Uint16(b[5:7]), m), "R-type"
+	case 11: // a Twrite whose count is smaller than the data it carries
+		if b[4] == rc.TypeTwrite && len(b) > 24 {
+			have := uint32(len(b) - 23)
+			binary.LittleEndian.PutUint32(b[19:], []uint32{0, 1, have / 2, have - 1}[ch(4)])
+			return b, "twrite-count-lowered"
+		}
 	case 10: // header only, size says header only, for a type that needs a body
 		b = b[:7]
 		binary.LittleEndian.PutUint32(b[0:4], 7)
@@ -205,6 +211,18 @@ func runC02(rcx *RunCtx) {
 			case rc.Trailing:
 				if rep.Tag != tag && rep.Tag != rc.NoTag {
 					find("wrong-tag", what, "frame tag %d answered with tag %d", tag, rep.Tag)
+				}
+				if typ == rc.TypeTwrite {
+					// not just bytes after a complete message: the count
+					// disagrees with the data the frame carries
+					if _, isErr := rep.Msg.(*rc.Rlerror); !isErr {
+						find("bad-frame-accepted", what, "a Twrite whose count field disagrees with the %d bytes of data it carries (%s) must be rejected, got %s", size-23, what, rep)
+					}
+					for _, cl := range fs.Calls[mark:] {
+						if cl.Method == "WriteAt" {
+							find("bad-frame-reached-backend", what, "a Twrite with an inconsistent count (%s) was executed: %s", what, cl)
+						}
+					}
 				}
 				// accepted or rejected; if accepted the model must be told
 				if _, isErr := rep.Msg.(*rc.Rlerror); !isErr {
@@ -352,7 +370,7 @@ func init() {
 		Desc: "decoder safety: no panic, bounded buffering, frame resynchronisation (server and client as receivers)",
 		Run:  runC02,
 		Quick: 64000, Thorough: 4500000, QuickSecs: 60, ThorSecs: 1500,
-		Rule:  "streams of 6-46 frames: valid requests from the C04 generator, 40% mutated (bit flips, type byte, size field in {0,1,6,7,8,msize-1,msize,msize+1,4MiB+-1,2^31,2^32-1,len+-1}, body truncated with consistent size, trailing bytes, 2- and 4-byte count/length fields blown up, random bytes, R-types, header-only), optionally before Tversion, optionally ending inside a frame; x segmentation (whole / random / single bytes); client as receiver: fake-server replies mutated the same way. Frames are fed one at a time with a run to quiescence in between; now and then a Tversion with another msize re-negotiates (the limit that counts is the latest); at the end a burst of 3-8 good and rejected frames in one write, whose replies must form a sequence of whole frames, one per frame sent. Oracle: independent three-valued classifier (refcodec): exact frames judged by the C04 session model and the backend call log (delivered values), malformed/unknown-type frames answered Rlerror with exactly size bytes consumed and no backend call, size<7 or >msize ends the connection without the body being read, trailing bytes either way; exactly one reply per well-delimited frame before any byte of the next; every Read buffer <= 4 MiB; no panic reaches the top of a goroutine.",
+		Rule:  "streams of 6-46 frames: valid requests from the C04 generator, 40% mutated (bit flips, type byte, size field in {0,1,6,7,8,msize-1,msize,msize+1,4MiB+-1,2^31,2^32-1,len+-1}, body truncated with consistent size, trailing bytes, 2- and 4-byte count/length fields blown up, Twrite counts lowered below the data carried, random bytes, R-types, header-only), optionally before Tversion, optionally ending inside a frame; x segmentation (whole / random / single bytes); client as receiver: fake-server replies mutated the same way. Frames are fed one at a time with a run to quiescence in between; now and then a Tversion with another msize re-negotiates (the limit that counts is the latest); at the end a burst of 3-8 good and rejected frames in one write, whose replies must form a sequence of whole frames, one per frame sent. Oracle: independent three-valued classifier (refcodec): exact frames judged by the C04 session model and the backend call log (delivered values), malformed/unknown-type frames answered Rlerror with exactly size bytes consumed and no backend call, size<7 or >msize ends the connection without the body being read, trailing bytes either way; exactly one reply per well-delimited frame before any byte of the next; every Read buffer <= 4 MiB; no panic reaches the top of a goroutine.",
 		Assume: []string{"the tag of the Rlerror for an undecodable frame may be the frame's tag or NOTAG", "a mutated frame that is itself a valid message is judged as that message (reply and tag only)"},
 		Real:   []string{"p9 recv/decode paths (server and client)", "p9.Server", "p9.Client"},
 		Stub:   []string{"transport (simnet pipes)", "raw 9P peer / fake server (refcodec)", "backend tree (simfs)"},
